@@ -5,6 +5,8 @@ import (
 	"errors"
 	"sync"
 	"time"
+
+	"github.com/gordian-engine/gordian/internal/gchan"
 )
 
 // RoundTimer is the interface the state machine uses to manage timeouts per step.
@@ -97,6 +99,7 @@ func (t *StandardRoundTimer) background(ctx context.Context) {
 
 	for {
 		// Wait for signal to start timer.
+		gchan.VerifPoint(ctx, "roundtimer.idle")
 		select {
 		case <-ctx.Done():
 			return
@@ -125,6 +128,7 @@ func (t *StandardRoundTimer) background(ctx context.Context) {
 		}
 
 		// The timer is running.
+		gchan.VerifPoint(ctx, "roundtimer.running")
 		select {
 		case <-ctx.Done():
 			return
